@@ -241,6 +241,103 @@ def _freed_slot_indexing(rep, P: str, rel: str, construct: str, fn: ast.Function
                                       f"{rel}:{sub.lineno}")
 
 
+def _rebuild_run_condition(outer: ast.For, inner: ast.For, mvar: str) -> Tuple[str, str]:
+    """('ok' | '?' | <what is wrong>, text): when is `inner` (the rebuild of one module's slots) reached in an iteration of `outer`?
+    Collected from the guard clauses before it and the `if`s around it; evaluated for (module present?, file gave slots?)."""
+    tests: List[Tuple[ast.expr, bool]] = []          # (test, must be true to reach the inner loop)
+    defs: Dict[str, ast.expr] = {}
+
+    def find(stmts) -> Optional[bool]:
+        for st in stmts:
+            if st is inner:
+                return True
+            if isinstance(st, ast.Assign) and len(st.targets) == 1 and isinstance(st.targets[0], ast.Name):
+                defs[st.targets[0].id] = st.value
+            if isinstance(st, ast.If):
+                if st.body and isinstance(st.body[-1], ast.Continue) and not st.orelse and not any(inner is x for b in st.body for x in ast.walk(b)):
+                    tests.append((st.test, False))
+                    continue
+                if any(inner is x for b in st.body for x in ast.walk(b)):
+                    tests.append((st.test, True))
+                    return find(st.body)
+                if any(inner is x for b in st.orelse for x in ast.walk(b)):
+                    tests.append((st.test, False))
+                    return find(st.orelse)
+                if any(isinstance(x, (ast.Continue, ast.Break, ast.Return, ast.Raise)) for b in st.body + st.orelse for x in ast.walk(b)):
+                    return None
+            elif isinstance(st, (ast.For, ast.While, ast.With, ast.Try)) and any(inner is x for x in ast.walk(st)):
+                return None
+            elif any(isinstance(x, (ast.Continue, ast.Break, ast.Return)) for x in ast.walk(st)):
+                return None
+        return False
+    if not find(outer.body):
+        return "?", ""
+    shown = " and ".join((("" if pol else "not ") + f"({norm(t)})") for t, pol in tests) or "(always)"
+
+    class Unknown(Exception):
+        pass
+
+    def ev(e: ast.expr, present: bool, slots: bool, depth: int = 0):
+        if depth > 6:
+            raise Unknown()
+        if isinstance(e, ast.Name):
+            if e.id == mvar:
+                return present
+            if e.id in defs:
+                return ev(defs[e.id], present, slots, depth + 1)
+            raise Unknown()
+        if isinstance(e, ast.Constant) and isinstance(e.value, bool):
+            return e.value
+        if isinstance(e, ast.UnaryOp) and isinstance(e.op, ast.Not):
+            return not ev(e.operand, present, slots, depth)
+        if isinstance(e, ast.BoolOp):
+            if isinstance(e.op, ast.And):
+                for v in e.values:
+                    if not ev(v, present, slots, depth):
+                        return False
+                return True
+            for v in e.values:
+                if ev(v, present, slots, depth):
+                    return True
+            return False
+        if isinstance(e, ast.Call) and norm(e.func) == "bool" and len(e.args) == 1:
+            return ev(e.args[0], present, slots, depth)
+        if isinstance(e, ast.Compare) and len(e.ops) == 1 and norm(e.left) == mvar and isinstance(e.comparators[0], ast.Constant) and e.comparators[0].value is None:
+            if isinstance(e.ops[0], ast.Is):
+                return not present
+            if isinstance(e.ops[0], ast.IsNot):
+                return present
+        from ..guards import canon
+        c = canon(e)
+        if norm(e) == f"{mvar}.in_link_slots" or c == f"nonempty({mvar}.in_link_slots)":
+            if not present:
+                raise Unknown()         # would raise at run time: not a case this rule decides
+            return slots
+        if c == f"empty({mvar}.in_link_slots)":
+            if not present:
+                raise Unknown()
+            return not slots
+        raise Unknown()
+    wrong = []
+    try:
+        for present in (False, True):
+            for slots in ((False,) if not present else (False, True)):
+                reached = True
+                for t, pol in tests:
+                    if ev(t, present, slots) != pol:
+                        reached = False
+                        break
+                want = present and not slots
+                if reached != want:
+                    wrong.append(("an empty position" if not present else ("a module with stored slots" if slots else "a module without stored slots"))
+                                 + (" is rebuilt" if reached else " is not rebuilt"))
+    except Unknown:
+        return "?", shown
+    if wrong:
+        return "; ".join(wrong), shown
+    return "ok", shown
+
+
 def rebuild_rules(repo: Repo, rep, P: str):
     sv = repo.cls("SunVoxReader", module="rv.readers.sunvox")
     from .. import inline
@@ -258,22 +355,16 @@ def rebuild_rules(repo: Repo, rep, P: str):
     # ---------------- pass 1: missing in_link_slots
     outer, inner = loops[0]
     mvar = norm(outer.target)
-    # the pass only runs for modules without stored slots
-    from ..guards import nnf
-    guard = [s for s in outer.body if isinstance(s, ast.If) and f"{mvar}.in_link_slots" in norm(s.test)]
-    want_skip = "or(" + ", ".join(sorted([f"not ({mvar})", f"{mvar}.in_link_slots"])) + ")"      # skip when empty or already has slots
-    ok_guard = False
-    if guard:
-        gd = guard[0]
-        if gd.body and isinstance(gd.body[-1], ast.Continue) and nnf(gd.test) == want_skip:
-            ok_guard = True                                           # if <skip>: continue
-        elif any(inner is x or any(inner is y for y in ast.walk(x)) for x in gd.body) and nnf(gd.test, neg=True) == want_skip:
-            ok_guard = True                                           # if <not skip>: <the pass>
-    if ok_guard:
-        rep.ok(f"{P}.R2", construct, f"if {norm(guard[0].test)}: …", "slots are rebuilt only when the file carried none")
+    # the pass only runs for modules without stored slots: the condition under which the inner loop is reached, evaluated over the
+    # two facts it may depend on (is there a module in this position; did the file give it slots)
+    verdict, shown = _rebuild_run_condition(outer, inner, mvar)
+    if verdict == "ok":
+        rep.ok(f"{P}.R2", construct, shown, "slots are rebuilt only when the file carried none")
+    elif verdict == "?":
+        rep.inconclusive(f"{P}.R2", construct, shown, "the condition under which a module's slots are rebuilt is not of a form this rule reads", f"{rel}:{outer.lineno}")
     else:
-        rep.violation(f"{P}.R2", construct, norm(guard[0].test) if guard else "missing guard",
-                      "the slot rebuild must run exactly for modules whose file carried no slot chunk", f"{rel}:{outer.lineno}")
+        rep.violation(f"{P}.R2", construct, shown,
+                      f"the slot rebuild must run exactly for modules whose file carried no slot chunk ({verdict})", f"{rel}:{outer.lineno}")
     if norm(outer.iter) == "self.object.modules[1:] + self.object.modules[:1]":
         rep.ok(f"{P}.R2", construct, norm(outer.iter), "non-output modules first, output last (SunVox's own order)", nontrivial=False)
     else:
